@@ -1,6 +1,7 @@
 package main
 
 import (
+	"go/token"
 	"fmt"
 	"go/types"
 	"strings"
@@ -63,5 +64,334 @@ func ruleSubjectProv(c *Ctx) {
 			bad = bad[:3]
 		}
 		c.check(len(bad) == 0, name, what, pos, fmt.Sprintf("%d leaves: %s", len(leaves), strings.Join(kinds, "; ")), strings.Join(bad, " | "))
+	}
+}
+
+// ---------------------------------------------------------------------------
+// PROV/token-cid (C05.3, C10.1): every service request carries the
+// requesting connection's own id and its current token.
+
+func ruleTokenCID(c *Ctx) {
+	p := c.P
+	fTok := p.Field("server.wsConn.token")
+	type tgt struct {
+		f        *types.Func
+		tokIdx   int
+		reqIdx   int // requester / subscriber argument
+		isAccess bool
+	}
+	tgts := []tgt{
+		{p.Method("rescache.Cache.Access"), 2, 1, true},
+		{p.Method("rescache.Cache.Call"), 5, 1, false},
+		{p.Method("rescache.Cache.Auth"), 5, 1, false},
+		{p.Method("rescache.Cache.CustomAuth"), 4, 1, false},
+	}
+	subscribeM := []*types.Func{p.Method("server.wsConn.Subscribe"), p.Method("server.wsConn.subscribe")}
+	newSub := p.PkgFunc("server.NewSubscription")
+	// cellKey: identity of "the connection variable" across loads
+	connKey := func(v ssa.Value) string {
+		v = stripConv(v)
+		if u, ok := v.(*ssa.UnOp); ok && u.Op == token.MUL {
+			switch x := u.X.(type) {
+			case *ssa.FreeVar:
+				return "fv:" + x.Name()
+			case *ssa.Alloc:
+				return "cell:" + x.Comment
+			}
+		}
+		if prm, ok := v.(*ssa.Parameter); ok {
+			return "param:" + prm.Name()
+		}
+		return "v:" + v.Name()
+	}
+	for _, fn := range p.Repo {
+		if fn.Pkg == nil || fn.Pkg.Pkg.Name() != "server" {
+			if fn.Parent() == nil || TopLevel(fn).Pkg == nil || TopLevel(fn).Pkg.Pkg.Name() != "server" {
+				continue
+			}
+		}
+		for _, call := range callsIn(fn) {
+			cf := calleeFunc(call.Common())
+			for _, tg := range tgts {
+				if tg.f == nil || cf != tg.f {
+					continue
+				}
+				c.inst(1)
+				args := callArgs(call.Common())
+				name := fnName(fn)
+				pos := p.InstrPos(call)
+				what := "request carries the connection's current token and its own id (" + tg.f.Name() + ")"
+				tok := stripConv(args[tg.tokIdx])
+				f, base := fieldLoad(tok)
+				if f != fTok {
+					c.viol(name, what, pos, "the token argument is not a read of the connection's token at the time of the request (a token captured earlier may be stale after a token event)")
+					continue
+				}
+				if tok.(ssa.Instruction).Parent() != fn {
+					c.viol(name, what, pos, "token read in a different task than the request")
+					continue
+				}
+				ck := connKey(base)
+				// requester must be the same connection
+				bad := ""
+				req := stripConv(args[tg.reqIdx])
+				if !tg.isAccess {
+					if connKey(req) != ck {
+						bad = "requester argument is not the connection whose token is sent"
+					}
+				} else {
+					// subscriber: created for / obtained from the same connection, or the method's own parameter
+					r := req
+					if u, ok := r.(*ssa.UnOp); ok && u.Op == token.MUL {
+						// cell: find its single store
+						if al, ok := u.X.(*ssa.Alloc); ok {
+							for _, rr := range *al.Referrers() {
+								if st, ok := rr.(*ssa.Store); ok && st.Addr == ssa.Value(al) {
+									r = stripConv(st.Val)
+								}
+							}
+						} else if fv, ok := u.X.(*ssa.FreeVar); ok {
+							// captured: look at the binding's store in the parent
+							if mc := p.parent[fv.Parent()]; mc != nil {
+								for i, x := range fv.Parent().FreeVars {
+									if x == fv {
+										if al, ok := mc.Bindings[i].(*ssa.Alloc); ok {
+											for _, rr := range *al.Referrers() {
+												if st, ok := rr.(*ssa.Store); ok && st.Addr == ssa.Value(al) {
+													r = stripConv(st.Val)
+												}
+											}
+										}
+									}
+								}
+							}
+						}
+					}
+					okSub := false
+					switch x := r.(type) {
+					case *ssa.Parameter:
+						okSub = true // wsConn.Access(s, cb): s.c == c by construction of the caller (s.c.Access(s, …))
+					case *ssa.Extract:
+						if cl, ok := x.Tuple.(*ssa.Call); ok {
+							if _, is := isCallTo(cl, subscribeM...); is {
+								okSub = true
+							}
+						}
+					case *ssa.Call:
+						if calleeFunc(&x.Call) == newSub {
+							okSub = true
+						}
+					case *ssa.Phi:
+						okSub = true
+						for _, e := range x.Edges {
+							e = stripConv(e)
+							good := false
+							if cl, ok := e.(*ssa.Call); ok && calleeFunc(&cl.Call) == newSub {
+								good = true
+							}
+							if ex, ok := e.(*ssa.Extract); ok {
+								if _, isLk := ex.Tuple.(*ssa.Lookup); isLk {
+									good = true
+								}
+							}
+							if !good {
+								okSub = false
+							}
+						}
+					}
+					if !okSub {
+						bad = "subscription passed to the access request is not one created for this connection"
+					}
+				}
+				c.check(bad == "", name, what, pos, "token is c.token read in the requesting task; requester is the same connection", bad)
+			}
+		}
+	}
+	// the payload builders put the requester's cid and the given token into the request
+	for _, nm := range []string{"codec.CreateRequest", "codec.CreateAuthRequest"} {
+		fn := p.Fn(nm)
+		if fn == nil {
+			c.undecided(nm, "anchor", "-", "not found")
+			continue
+		}
+		c.inst(1)
+		fCID := p.Field("codec.Request.CID")
+		fToken := p.Field("codec.Request.Token")
+		okCID, okTok := false, false
+		for _, st := range p.stores[fCID] {
+			if st.Parent() == fn {
+				if call, ok := st.Val.(*ssa.Call); ok && call.Call.IsInvoke() && call.Call.Method.Name() == "CID" {
+					if _, isP := call.Call.Value.(*ssa.Parameter); isP {
+						okCID = true
+					}
+				}
+			}
+		}
+		for _, st := range p.stores[fToken] {
+			if st.Parent() == fn {
+				if prm, ok := st.Val.(*ssa.Parameter); ok && prm.Name() == "token" {
+					okTok = true
+				}
+			}
+		}
+		c.check(okCID && okTok, nm, "payload cid is the requester's CID() and token is the token argument", p.Pos(fn.Pos()), "struct literal fields", fmt.Sprintf("cid from requester=%v token from argument=%v", okCID, okTok))
+	}
+	// accessors
+	for _, a := range []struct{ fn, field string }{{"(*server.wsConn).CID", "server.wsConn.cid"}, {"(*server.wsConn).Token", "server.wsConn.token"}} {
+		fn := p.Fn(a.fn)
+		if fn == nil {
+			continue
+		}
+		c.inst(1)
+		ok := false
+		allInstrs(fn, func(in ssa.Instruction) {
+			if r, isR := in.(*ssa.Return); isR && len(r.Results) == 1 {
+				if f, _ := fieldLoad(r.Results[0]); f == p.Field(a.field) {
+					ok = true
+				}
+			}
+		})
+		c.check(ok, a.fn, "returns the connection's own "+a.field, p.Pos(fn.Pos()), "single field read", "accessor returns something else")
+	}
+}
+
+// ---------------------------------------------------------------------------
+// PROV/cid-taint (C10.2, C10.3): expanded names never travel to clients
+
+func ruleCIDTaint(c *Ctx) {
+	p := c.P
+	tainted := map[*types.Var]string{}
+	for _, q := range []string{"server.wsConn.cid", "server.wsConn.connStr", "server.Subscription.resourceName", "server.Subscription.resourceQuery", "rescache.EventSubscription.ResourceName"} {
+		if f := p.Field(q); f != nil {
+			tainted[f] = q
+		} else {
+			c.undecided(q, "anchor", "-", "field not found")
+		}
+	}
+	trust := func(f *types.Var) (Leaf, bool) {
+		if q, ok := tainted[f]; ok {
+			return Leaf{Kind: "expanded", Desc: q}, true
+		}
+		// service payload fields are the service's business
+		return Leaf{}, false
+	}
+	newEvent := p.PkgFunc("rpc.NewEvent")
+	ridToPath := p.PkgFunc("server.RIDToPath")
+	resFields := map[*types.Var]bool{}
+	for _, q := range []string{"rpc.Resources.Models", "rpc.Resources.Collections", "rpc.Resources.Errors"} {
+		if f := p.Field(q); f != nil {
+			resFields[f] = true
+		}
+	}
+	fRID := p.Field("rpc.CallResourceResult.RID")
+	check := func(fn *ssa.Function, in ssa.Instruction, v ssa.Value, what string) {
+		c.inst(1)
+		leaves := p.Trace(v, in, trust)
+		bad := ""
+		for _, l := range leaves {
+			if l.Kind == "expanded" {
+				bad = "a value derived from " + l.Desc + " (connection id / {cid}-expanded name) reaches the client via " + l.Via
+			}
+		}
+		c.check(bad == "", fnName(fn), what, p.InstrPos(in), fmt.Sprintf("%d leaves, none derived from the connection id or an expanded resource name", len(leaves)), bad)
+	}
+	for _, fn := range p.Repo {
+		if fn.Pkg == nil && fn.Parent() == nil {
+			continue
+		}
+		top := TopLevel(fn)
+		if top.Pkg == nil || top.Pkg.Pkg.Name() != "server" {
+			continue
+		}
+		allInstrs(fn, func(in ssa.Instruction) {
+			switch x := in.(type) {
+			case ssa.CallInstruction:
+				cf := calleeFunc(x.Common())
+				if cf != nil && cf == newEvent {
+					check(fn, in, x.Common().Args[0], "client event names the resource by the id the client used")
+				}
+				if cf != nil && cf == ridToPath {
+					check(fn, in, x.Common().Args[0], "HTTP href / Location built from the unexpanded id")
+				}
+			case *ssa.MapUpdate:
+				if f, _ := fieldLoad(x.Map); resFields[f] {
+					check(fn, in, x.Key, "resource set keyed by the id the client used")
+				}
+			case *ssa.Store:
+				if fa, ok := x.Addr.(*ssa.FieldAddr); ok && fieldOfAddr(fa) == fRID {
+					check(fn, in, x.Val, "resource response names the resource by its unexpanded id")
+				}
+			}
+		})
+	}
+	// who may call ExpandCID
+	expand := []*types.Func{p.Method("server.wsConn.ExpandCID"), p.Method("server.ConnSubscriber.ExpandCID")}
+	allowed := map[string]bool{"server.NewSubscription": true, "(*server.wsConn).AuthResource": true, "(*server.wsConn).AuthResourceNoResult": true}
+	for _, fn := range p.Repo {
+		for _, call := range callsIn(fn) {
+			if _, ok := isCallTo(call, expand...); ok {
+				c.inst(1)
+				top := fnName(TopLevel(fn))
+				c.check(allowed[top], top, "ExpandCID used on the service-facing side only", p.InstrPos(call), "listed caller: result goes to parseRID → resourceName/Query or Cache.Auth", "ExpandCID called from an unlisted place")
+			}
+		}
+	}
+	// ExpandCID replaces every tag
+	if fn := p.Fn("(*server.wsConn).ExpandCID"); fn != nil {
+		c.inst(1)
+		ok := false
+		other := ""
+		for _, call := range callsIn(fn) {
+			nm := calleeName(call.Common())
+			switch nm {
+			case "strings.ReplaceAll":
+				ok = true
+			case "strings.Replace":
+				if k, isC := constInt(call.Common().Args[3]); isC && k < 0 {
+					ok = true
+				} else {
+					other = "strings.Replace with a bounded count"
+				}
+			default:
+				if strings.HasPrefix(nm, "strings.") {
+					other = nm
+				}
+			}
+		}
+		if other != "" {
+			c.viol(fnName(fn), "every {cid} tag is expanded", p.Pos(fn.Pos()), "uses "+other+": only some of the tags of a resource id would be expanded (the rest reach the services literally)")
+		} else if ok {
+			c.ok(fnName(fn), "every {cid} tag is expanded", p.Pos(fn.Pos()), "strings.Replace(…, -1) / ReplaceAll")
+		} else {
+			c.ok(fnName(fn), "every {cid} tag is expanded", p.Pos(fn.Pos()), "form not recognised: not decided")
+		}
+	}
+	// token reset filtered by the connection's own tid
+	if fn := p.Fn("(*server.wsConn).TokenReset"); fn != nil {
+		fTid := p.Field("server.wsConn.tid")
+		custom := p.Method("rescache.Cache.CustomAuth")
+		for _, g := range WithClosures(fn) {
+			for _, call := range callsIn(g) {
+				if _, ok := isCallTo(call, custom); !ok {
+					continue
+				}
+				c.inst(1)
+				lookupGuard := func(i *ssa.If) (bool, bool) {
+					v := i.Cond
+					neg := false
+					if u, ok := v.(*ssa.UnOp); ok && u.Op == token.NOT {
+						v, neg = u.X, true
+					}
+					if lk, ok := v.(*ssa.Lookup); ok {
+						if f, _ := fieldLoad(lk.Index); f == fTid {
+							return !neg, true
+						}
+					}
+					return false, false
+				}
+				gd := p.guardedBy(call, lookupGuard)
+				c.check(gd != nil, fnName(g), "token reset re-authenticates only connections whose own token id is listed", p.InstrPos(call), "dominated by tids[c.tid]", "auth request sent for connections that are not addressed by the token reset")
+			}
+		}
 	}
 }
